@@ -348,6 +348,88 @@ def trainOffset : List (Param α) → Nat → Nat
   | _ :: _, 0 => 0
   | p :: ps, j+1 => (if p.rg then p.numel else 0) + trainOffset ps j
 
+/-! ## constructor and call glue: argument defaulting, option handling
+
+`GaussNewton.__init__` / `LevenbergMarquardt.__init__` (identical code for kernels and correctors), the weight
+selection and the residual computation of `step`, and LM's defaults. -/
+
+/-- the `kernel=` / `corrector=` argument: `None`, one module, or a list / tuple with optional `None` entries -/
+inductive Arg (β : Type)
+  | none
+  | one (b : β)
+  | many (bs : List (Option β))
+
+/-- an entry of `optimizer.corrector` after `__init__` -/
+inductive CorrSel (κ γ : Type)
+  | trivial                  -- `Trivial()`
+  | auto (k : Option κ)      -- `FastTriggs(k)` built by the optimizer (`k = none`: `FastTriggs(Trivial())`)
+  | user (c : γ)             -- the user's corrector object
+deriving DecidableEq, Repr
+
+/-- `kernel = [kernel] if not isinstance(kernel, (tuple, list)) else kernel` (only when `kernel is not None`) -/
+def kernelList {κ : Type} : Arg κ → Option (List (Option κ))
+  | .none => Option.none
+  | .one c => some [some c]
+  | .many cs => some cs
+
+/-- `optimizer.corrector`:
+
+    if kernel is not None: corrector = [FastTriggs(k) for k in kernel] if corrector is None else corrector
+    else:                  corrector = [Trivial()] if corrector is None else corrector
+    corrector = [corrector] if not isinstance(corrector, (tuple, list)) else corrector
+    corrector = [c if c is not None else Trivial() for c in corrector]                                      -/
+def configCorrectors {κ γ : Type} (ka : Arg κ) (ca : Arg γ) : List (CorrSel κ γ) :=
+  match ca with
+  | .one c => [CorrSel.user c]
+  | .many cs => cs.map fun o => match o with | some c => CorrSel.user c | Option.none => CorrSel.trivial
+  | .none =>
+    match kernelList ka with
+    | Option.none => [CorrSel.trivial]
+    | some ks => ks.map CorrSel.auto
+
+/-- the corrector that serves residual `i` of a step, from the constructor arguments -/
+def servedBy {κ γ : Type} (ka : Arg κ) (ca : Arg γ) (i : Nat) : Option (CorrSel κ γ) :=
+  pickCorrector (configCorrectors ka ca) i
+
+/-- `weight = self.weight if weight is None else weight` -/
+def selectWeight {ω : Type} (ctor step : Option ω) : Option ω :=
+  match step with
+  | some w => some w
+  | Option.none => ctor
+
+/-- `weight = weight if isinstance(weight, (tuple, list)) else [weight]` -/
+def weightList {ω : Type} : Arg ω → Option (List ω)
+  | .none => Option.none
+  | .one w => some [w]
+  | .many ws => some (ws.filterMap id)
+
+/-- `RobustModel.residual`: `output if target is None else output - target` -/
+def residualOf (out : Vec α) (target : Option (Vec α)) : Vec α :=
+  match target with
+  | Option.none => out
+  | some t => fun i => out i - t i
+
+/-- `RobustModel.residuals` for a tuple of outputs: `targets = [None]*len(outputs) if targets is None else targets`, then
+`residual(out_i, targets[i])` (`none` = `IndexError` for a target list that is too short) -/
+def residualsOf (outs : List (Vec α)) (targets : Option (List (Option (Vec α)))) : Option (List (Vec α)) :=
+  match targets with
+  | Option.none => some outs
+  | some ts =>
+    if ts.length < outs.length then Option.none
+    else some ((outs.zip ts).map fun p => residualOf p.1 p.2)
+
+/-- the clamps and the rejection budget of `LevenbergMarquardt(min=1e-6, max=1e32, reject=16)` with the arguments
+that were not passed replaced by the defaults -/
+structure LMConfig (α : Type) where
+  lo : α
+  hi : α
+  reject : Nat
+
+def lmConfig (lo hi : Option α) (reject : Option Nat) : LMConfig α :=
+  { lo := match lo with | some x => x | Option.none => q 1 1000000
+    hi := match hi with | some x => x | Option.none => k (10 ^ 32)
+    reject := match reject with | some r => r | Option.none => 16 }
+
 /-! ## calls as state transformers (failing calls, call histories, copies) -/
 
 /-- One `GaussNewton.step` as a partial map on the parameter list: building the system (`none` = an argument check or the
